@@ -326,7 +326,9 @@ def make_aids(ctx, geo, snap, structured=False):
             ('columns-subset+guess-far', lambda e, p: dict(subset(e, p), **far_guess(e, p)) if e is not None else None),
             ('quadtree-again', lambda e, p: {'qtree': geo.column_quadtree()}),
             ('guess-neighbour+bounds', lambda e, p: dict(nbr_guess(e, p) or {}, bounds=bounds_rect) if nbr_guess(e, p) else None)]
-    if bpoly is not None and convex_domain:
+    if bpoly is not None and (convex_domain or structured):
+        # (on a structured rectangular grid the domain is one rectangle: its boundary polygon is offered as an aid whatever
+        #  it looks like, and a polygon that is not the domain shows as points found without it and not with it)
         aids.append(('bounds-polygon', lambda e, p: {'bounds': bpoly}))
     if structured:
         # (only on structured rectangular grids, where the columns whose boxes meet a leaf rectangle always form a connected
